@@ -88,9 +88,6 @@ def _get_series_time_offsets(series_list, head_step, result):
          and forall(0, it, lambda j: same_array(sorted_list[j][0], dec[j][0]) and same_array(sorted_list[j][1], dec[j][1]))
          and forall_int(lambda j: (j in index_mapping) == (0 <= j and j < it))
          and forall(0, it, lambda j: index_mapping[j] == dec[j][2]))
-    ghost(after="series_ids, offsets = find_offsets(", do=lambda: cut(forall_int(lambda h: implies(
-          h in head_mapping, forall(0, len(head_mapping[h]), lambda q: exists(0, len(series_ids), lambda j:
-          series_ids[j] == head_mapping[h][q][0]))))))
     ghost(after="series_ids, offsets = find_offsets(", do=lambda: cut(forall(0, len(series_ids), lambda j:
           0 <= series_ids[j] and series_ids[j] < len(series_list))))
     ghost(before="head_mapping = build_head_mapping(", do=lambda: cut(forall(0, len(series_list), lambda j2: forall(0, j2, lambda j:
@@ -223,8 +220,10 @@ def _find_offsets(head_mapping, result):
     ensures(forall_int(lambda h: (h in head_mapping) == (h in g_hm)) and forall_int(lambda h: implies(h in g_hm, head_mapping[h] == g_hm[h])))
     # the series ids, ascending; the reference is the last
     ensures(len(result[0]) >= 1 and forall(0, len(result[0]), lambda j: forall(0, j, lambda i: result[0][i] < result[0][j])))
-    ensures(forall_int(lambda s: exists(0, len(result[0]), lambda j: result[0][j] == s)
-                       == exists_int(lambda h: h in g_hm and in_level(g_hm, h, s))))
+    # ... exactly the series present at some remaining level (two directions, each with a usable trigger)
+    ensures(forall(0, len(result[0]), lambda j: exists_int(lambda h: h in g_hm and in_level(g_hm, h, result[0][j]))))
+    ensures(forall_int(lambda h: implies(h in g_hm, forall(0, len(g_hm[h]), lambda p:
+            exists(0, len(result[0]), lambda j: result[0][j] == g_hm[h][p][0])))))
     ensures(len(result[1]) == len(result[0]) and result[1][len(result[0]) - 1] == 0)
     # the rows
     ensures(len(g_items) == len(g_hm) and len(g_off) == len(g_items) and len(g_means) == len(g_items))
